@@ -135,7 +135,7 @@ class C04(Prop):
         'TOL_H / TOL_HD per (method, k-bucket) calibrated >= 10x above the worst ratio over 8 seeds; None = weak cell '
         '(shape, symmetry, finiteness only)',
     )
-    examples = {'quick': 250, 'thorough': 5000}
+    examples = {'quick': 250, 'thorough': 4000}
 
     def __init__(self):
         self.constants = {'FLOOR_eps_multiple': FLOOR, 'QUAD_REAL_eps_multiple': QUAD_REAL,
